@@ -184,7 +184,8 @@ def fhex(x):
 
 STR_POOLS = {
     "int": ["1", "2", "30", "-7", "0", "+5", " 12 ", "1_0", "007", "05", "9007199254740993", "٣"],
-    "float": ["1.5", "2.0", "1e3", "-0.25", ".5", "1.", "inf", "nan", "NaN", "1e400", "0.1", "00.5", "1.0", "3.0"],
+    "float": ["1.5", "2.0", "1e3", "-0.25", ".5", "1.", "inf", "nan", "NaN", "1e400", "0.1", "00.5", "1.0", "3.0", "01.5", "02.5", "01.02",
+              "03.04", "0.5e1", "0.25", "012.5"],
     "bool": ["True", "false", "TRUE", "yes", "No", "y", "N", "true", "FALSE", "Y", "n", "no", "YES"],
     "complex": ["1+2j", "3j", "(1+1j)", "2+0j", "1e2j", "nan+1j", "j", "1+2i"],
     "datetime": ["2020-01-01", "2020-01-02 10:30:00", "1999-12-31T23:59:59", "01/02/2021", "2020-01-01+01:00",
@@ -192,7 +193,7 @@ STR_POOLS = {
     "url": ["http://www.cwi.nl:80/%7Eguido/Python.html", "https://github.com/pandas-profiling/pandas-profiling",
             "http://u@h", "ftp://x.y/z", "http://[a", "//net/loc", "mailto:a@b.c", "http://a.b"],
     "path": ["/home/user/file.txt", "/a", "C:\\Users\\x\\f.txt", "c:/a@b", "/a@b", "relative/p.txt", "\\\\srv\\share\\f",
-             "/", "C:"],
+             "/", "C:", "C://foo/bar", "/usr/lib/x.so", "D:\\data\\a.csv"],
     "ip": ["127.0.0.1", "192.168.0.255", "::1", "2001:db8::8a2e:370:7334", "256.1.1.1", "1.2.3", "0.0.0.0"],
     "uuid": ["0b8a22ca-80ad-4df5-85ac-fa49c44b7ede", "{0b8a22ca-80ad-4df5-85ac-fa49c44b7ede}",
              "0b8a22ca80ad4df585acfa49c44b7ede", "1" * 32, "urn:uuid:0b8a22ca-80ad-4df5-85ac-fa49c44b7ede", "12345"],
@@ -201,6 +202,38 @@ STR_POOLS = {
              "POINT (1", "GEOMETRYCOLLECTION EMPTY"],
     "text": ["hello", "a b", "", " ", "İ", "ß", "None", "null", "NA", "\x00", "x" * 300, "j", "i", "e", "-", "."],
 }
+
+GRID_FAMILIES = {
+    "float": ["1.5", "2.25", "-3.0"], "int": ["12", "7", "300"], "bool": ["yes", "no", "yes"],
+    "complex": ["1+2j", "3j", "2+0j"], "datetime": ["2020-01-01 10:30:00", "2021-05-06 01:02:03", "1999-12-31 23:59:59"],
+    "date": ["2020-01-01", "2021-05-06", "1999-12-31"], "url": ["http://a.b/c", "https://x.y/z", "ftp://x.y/z"],
+    "path": ["/home/user/file.txt", "/a", "/usr/lib/x.so"], "wpath": ["C:\\Users\\x\\f.txt", "D:\\data\\a.csv", "C:\\a"],
+    "ip": ["127.0.0.1", "::1", "192.168.0.255"], "uuid": ["0b8a22ca-80ad-4df5-85ac-fa49c44b7ede"] * 3,
+    "email": ["test@example.com", "first.last@sub.domain.org", "a@b.c"], "geom": ["POINT (1 2)", "LINESTRING (0 0, 1 1)", "POINT (-92 42)"],
+    "text": ["hello", "a b", "x-y"],
+}
+
+
+def grid_recipes():
+    """every accepted string family x {no missing value, one in each position} x every index kind: the interplay of
+    missing values with non-default, unsorted and duplicated index labels is where label-based code goes wrong"""
+    out = []
+    for fam, vals in GRID_FAMILIES.items():
+        for idx in ("default", "rev", "dup", "same", "str", "mixed"):
+            for nulls in (None, 0, 1, 3):
+                for dt, sent in (("object", ["none"]), ("str", ["nan"])):
+                    v = [["str", x] for x in vals]
+                    if nulls is not None:
+                        v.insert(nulls, sent)
+                    out.append({"values": v, "dtype": dt, "index": idx, "name": "g", "stream": "grid:%s" % fam})
+    # complex / float / datetime columns under every index kind (transformers must keep the labels)
+    for idx in ("default", "rev", "dup", "same", "str", "mixed"):
+        out.append({"values": [["complex", 1.0, 0.0], ["complex", 2.0, 0.0], ["nan"]], "dtype": "complex128", "index": idx, "name": "g", "stream": "grid:complex128"})
+        out.append({"values": [["float", 1.0], ["nan"], ["float", 3.0]], "dtype": "float64", "index": idx, "name": "g", "stream": "grid:float64"})
+        out.append({"values": [["dt", "2020-01-01T00:00:00"], ["NaT"], ["dt", "2021-02-03T00:00:00"]], "dtype": "datetime64[ns]", "index": idx, "name": "g", "stream": "grid:datetime64"})
+        out.append({"values": [["bool", True], ["none"], ["bool", False]], "dtype": "object", "index": idx, "name": "g", "stream": "grid:object-bool"})
+    return out
+
 
 OBJ_POOL = [
     ["bool", True], ["bool", False], ["int", 0], ["int", 1], ["int", 2], ["int", -1], ["float", 1.0], ["float", 0.0],
